@@ -19,6 +19,26 @@ Theorem C03_listener_exactly_once_in_order :
 Proof. exact listener_exactly_once. Qed.
 Print Assumptions C03_listener_exactly_once_in_order.
 
+(* fan-out completeness - the heart of C03. From any state in which nobody is in an operation, and for EVERY interleaving of any
+   number of producers, pollers and drivers in which no listener is created or removed: a send that reported success has
+   published its event into the ring of every listener listed in used_streams before the first sentinel (all of them, when the
+   array is full). With C17_live_list_consistent (the array lists exactly the live ids) and C03_listener_exactly_once_in_order:
+   every live listener is handed every accepted event exactly once, each producer's events in send order. *)
+From RM Require Import FanOut.
+Theorem C03_every_accepted_event_reaches_every_listener :
+  forall N M s0 mevs,
+    (forall t, mthr s0 t = MIdle) -> (forall t i, thr (rings s0 i) t = Idle) -> (forall t v, ~ In (t, MSendOk v) (mlog s0)) ->
+    Forall (fun e => steady_ev e = true) mevs ->
+    let s := fold_left (mexec N M) mevs s0 in
+    forall t v, In (t, MSendOk v) (mlog s) ->
+    exists j, (j <= M)%nat /\ (j = M \/ usedarr (mx s0) j = MAXID) /\
+      forall j', (j' < j)%nat -> usedarr (mx s0) j' <> MAXID /\ In v (accepted_of (log (rings s (Z.to_nat (usedarr (mx s0) j'))))).
+Proof.
+  intros N M s0 mevs Hi Hr Hl Hs. apply (fanout_complete N M (usedarr (mx s0)) s0 mevs); [|exact Hs].
+  apply fo_base; auto.
+Qed.
+Print Assumptions C03_every_accepted_event_reaches_every_listener.
+
 (* non-vacuity: two producers and two driven listeners, interleaved inside the fan-out loops *)
 Example C03_nonvacuous :
   let progs := [[MoCreate; MoCreate; MoSend 1; MoSend 2]; [MoSend 10]; [MoDrive 0]; [MoDrive 1]] in
